@@ -2,7 +2,7 @@
 # Replay of a solver counterexample against the unmodified code (no shims).
 # property=C15 kernel=eomcfg label=k1:result_is_closest
 import sys
-sys.path[:0] = ["/repo/pulser-core", "/repo/pulser-simulation", "/verif"]
+sys.path[:0] = ['/repo' + "/pulser-core", '/repo' + "/pulser-simulation", "/verif"]
 from symx.replay import replay
-sys.exit(replay(check='checks.c15', kernel='eomcfg', shape={'cfg': {'lim': 'R', 'ctrl': ['B']}},
-                assignment={'amp_on': '2069/512', 'detuning_on': '527/256', 'optimal_detuning_off': '19/512'}, label='k1:result_is_closest'))
+sys.exit(replay(check='checks.c15', kernel='eomcfg', shape={'cfg': {'lim': 'R', 'ctrl': ['R', 'B'], 'cb': 2.0, 'cr': 0.5}},
+                assignment={'amp_on': '177/512', 'detuning_on': '1/1024', 'optimal_detuning_off': '-5/32'}, label='k1:result_is_closest'))
